@@ -457,7 +457,7 @@ func fC131ShedClass(c *Ctx, rule string) {
 
 func fC131NSAddrVerdicts(c *Ctx, rule string) {
 	const rp = "middleware/resolver"
-	c.Doc(rule, "on the required delegation path a request-local verdict of an NS-address lookup is never turned into 'this delegation has no server': in every resolver function that calls lookupNSAddrV4/lookupNSAddrV6 and has an error result, from the err!=nil edge of that lookup the next lookup / a return is reached only (a) by returning the error, (b) after carrying it in a variable that reaches a return, or (c) across the false edge of IsRequestLocalResolutionError(err) or of errors.Is(err, S) — for every sentinel S of the class; and the function's callers reach Resolver.recordResolutionZoneFailure only across the nil edge of its error")
+	c.Doc(rule, "on the required delegation path a request-local verdict of an NS-address lookup is never turned into 'this delegation has no server': in every resolver function that calls lookupNSAddrV4/lookupNSAddrV6 and has an error result, from the err!=nil edge of that lookup the next lookup / a return is reached only (a) by returning the error, (b) after carrying it in a variable that reaches a return — a variable that lives across lookups is assigned, on a lookup's failure path, only the error and only behind the TRUE edge of the class test, never anything else — or (c) across the false edge of IsRequestLocalResolutionError(err) or of errors.Is(err, S) — for every sentinel S of the class; and the function's callers reach Resolver.recordResolutionZoneFailure only across the nil edge of its error")
 	k := fC131NewClass(c, rule)
 	v4 := c.fobj(rule, rp+".(*Resolver).lookupNSAddrV4")
 	v6 := c.fobj(rule, rp+".(*Resolver).lookupNSAddrV6")
@@ -633,6 +633,8 @@ func fC131NSAddrVerdicts(c *Ctx, rule string) {
 				c.ok(rule, key, instrPos(cl), "returned, carried, or excluded by the class test on every path")
 			}
 		}
+		// (b) refined: a verdict carried ACROSS lookups is replaced by request-local verdicts only (rules_w4_c13_w4g3c2.go)
+		n += w4C13CarriedAcrossLookups(c, rule, k, top, cl, errVal, start, isErr, reachesReturn)
 		// callers: the zone-failure verdict only across this function's nil error
 		if !seenTop[top] {
 			seenTop[top] = true
